@@ -109,6 +109,25 @@ fn main() {
     match args[0].as_str() {
         "merge-distinct" => return merge_distinct(&args[1..]),
         "merge-hashlog" => return merge_hashlog(&args[1..]),
+        "scenstats" => {
+            // developer aid: acceptance rate of each directed recipe
+            let mut rng = harness::rng::Rng::new(42);
+            for id in 0..harness::synth::N_SCEN {
+                let mut ok = 0;
+                let mut sample = String::new();
+                let n = 300;
+                for _ in 0..n {
+                    if let Some(s) = harness::synth::scenario(&mut rng, id) {
+                        ok += 1;
+                        if sample.is_empty() {
+                            sample = format!("{} prelude {:?}", s.pos.fen(), s.prelude.iter().map(|m| m.uci()).collect::<Vec<_>>());
+                        }
+                    }
+                }
+                println!("{:2} {:24} {:3}/{} {}", id, harness::synth::SCEN_NAMES[id], ok, n, sample);
+            }
+            return;
+        }
         "noop" => {
             println!("{{\"t\":\"noop\"}}");
             return;
